@@ -46,6 +46,14 @@ def argminScan {α : Type} [LT α] [DecidableLT α] (top : α) (vals : List α) 
       let (best, bestVal, i) := acc
       if v < bestVal then (i, v, i + 1) else (best, bestVal, i + 1)) (0, top, 0)).1
 
+/-- `result_t::closest_trial(params, max_trials)` (result.cpp:70-87): the scan over the FIRST `maxTrials` rows of
+    `m_params` (which, when `ml::tune` calls it, already holds the rows of the batch in flight: `result.add` comes first,
+    tune.cpp:23) with the distance `dist row params` (`lpNorm<2>` of the difference); `top` = `DBL_MAX`; trial 0 when
+    `maxTrials = 0` -/
+def closestTrial {α π : Type} [LT α] [DecidableLT α] (top : α) (dist : π → π → α) (rows : List π) (params : π)
+    (maxTrials : Nat) : Nat :=
+  argminScan top ((rows.take maxTrials).map fun row => dist row params)
+
 /-- `thread_callback(index, ·)` (tune.cpp:25-41). `pre` is the result right after `add`; `closest t` is the trial among
     the old ones closest to new trial `t`. The model-specific data of the closest trial is read from `pre` (the code
     reads the live result: the same whenever `old > 0`, or when the batch has a single trial, which is the case for the
